@@ -2,7 +2,8 @@
    Statements only; proofs in Proofs/PrinterExpressible.v.  [print_model] is the transcription of
    jsontodsl.go (Model/Printer.v), tied to the code by the correspondence of every run;
    [expressible] (Spec/Expressible.v) is written without the printer's validator counter. *)
-From Verif Require Import Base.Str Base.Outcome Model.Ast Model.Printer Spec.Expressible Proofs.PrinterExpressible.
+From Verif Require Import Base.Str Base.Outcome Model.Ast Model.Token Model.Parser Model.Listener Model.Printer
+  Spec.Sem Spec.Expressible Spec.Normalize Proofs.PrinterExpressible Proofs.Lossless.
 
 (* 1. on every rewrite a DSL document can carry, the printer's walk succeeds and its counter equals the
       number of direct assignments in the tree — for all trees, of any depth and operator nesting *)
@@ -38,3 +39,29 @@ Example C02_domain_is_inhabited :
   let u2 := UUnion [UThis ThisEmpty; UInter [UThis ThisEmpty; UComputed (lit "a")]] in
   carriable u1 = true /\ expressible u1 = true /\ carriable u2 = true /\ expressible u2 = false.
 Proof. repeat split; reflexivity. Qed.
+
+(* 6. lossless: for every carriable, expressible rewrite (any depth, any operator nesting) the text the printer
+      writes is the canonical one-line rendering of a GRAMMATICAL relation definition whose denotation is the
+      rewrite itself up to [normalize] — the direct assignment hoisted to the front of its union/intersection
+      (the reordering the property allows) and one-operand unions/intersections collapsed — and whose
+      restrictions are exactly the relation's type restrictions.  What remains between this and "parsing the
+      printed text gives the model back" is  parse (lex (render d)) = d  for canonical renderings, which is not
+      mechanised and is observed by the correspondence and round-trip checks of every run. *)
+Theorem C02_lossless : forall refs u,
+  carriable u = true -> expressible u = true -> refs_ok refs ->
+  exists t,
+    print_top u refs = Some (t, count_direct u) /\ t = render_rdef (rdef_of refs u) /\ wf_rdef (rdef_of refs u) = true /\ sem_rdef (rdef_of refs u) = normalize u /\ restrictions_elem (rd_first (rdef_of refs u)) = (if (count_direct u =? 0)%nat then None else Some refs).
+Proof. exact printed_relation_denotes_normal_form. Qed.
+
+(* 7. the same through the listener's rewrite stack (the code that actually reads the text back) *)
+Theorem C02_lossless_through_listener : forall refs u,
+  carriable u = true -> expressible u = true -> refs_ok refs ->
+  exists t s,
+    print_top u refs = Some (t, count_direct u) /\ t = render_rdef (rdef_of refs u) /\ walk_rdef (rdef_of refs u) = Ok s /\ parse_expression (rewrites s) (operator s) = Some (normalize u) /\ typeinfo s = (if (count_direct u =? 0)%nat then [] else refs).
+Proof. exact printed_relation_listened. Qed.
+
+(* non-vacuity of 6/7 and a look at [normalize]: the direct assignment moves to the front, nothing else moves *)
+Example C02_normalize_example :
+  normalize (UDiff (UUnion [UComputed (lit "a"); UThis ThisEmpty; UTTU (lit "p") (lit "b")]) (UInter [UComputed (lit "c")]))
+  = UDiff (UUnion [UThis ThisEmpty; UComputed (lit "a"); UTTU (lit "p") (lit "b")]) (UComputed (lit "c")).
+Proof. reflexivity. Qed.
